@@ -57,6 +57,7 @@ export type Action =
   | 'custom'
   | 'clear'
   | 'clear_parent'
+  | 'take_max'
   | 'either';
 
 function validateAction(action: string): Action {
@@ -70,6 +71,7 @@ function validateAction(action: string): Action {
       'custom',
       'clear',
       'clear_parent',
+      'take_max',
       'either',
     ])
   ) {
@@ -503,6 +505,38 @@ function resolveAction(base: any, decision: MergeDecision): IDiffEntry[] {
     } else {
       return [];
     }
+  } else if (a === 'take_max') {
+    // Use the largest of the base, local and remote values (e.g. for
+    // nbformat_minor), mirroring resolve_action on the Python side
+    let key: string | null = null;
+    for (let d of _combineDiffs(
+      decision.localDiff,
+      decision.remoteDiff,
+    ) as IDiffObjectEntry[]) {
+      if (key !== null && key !== d.key) {
+        throw new Error('Cannot combine diffs with different keys');
+      }
+      key = d.key;
+    }
+    if (key === null) {
+      return [];
+    }
+    let bval = base[key];
+    let mval = bval;
+    for (let diff of [decision.localDiff, decision.remoteDiff]) {
+      if (diff && diff.length > 0) {
+        let value = (diff[0] as any).value;
+        if (value > mval) {
+          mval = value;
+        }
+      }
+    }
+    if (mval === bval) {
+      return [];
+    }
+    let d = opReplace(key, mval);
+    d.source = { decision, action: 'custom' };
+    return [d];
   } else if (a === 'clear_parent') {
     if (Array.isArray(base)) {
       let d = opRemoveRange(0, base.length);
